@@ -23,6 +23,7 @@ type Case struct {
 	Named  bool   // list parameters declared with named slice types (assignable, not identical)
 	Layout int    // where _onBounds sits among the parser type's methods (pgo.Opts.BoundsLayout)
 	Nil    uint64 `json:",omitempty"` // rules whose actions return a nil `any` (pgo.Opts.NilMask)
+	PtrDis bool   `json:",omitempty"` // Token.Discard has a pointer receiver (pgo.Opts.PtrDiscard)
 	Inputs [][]int
 	Lox    string `json:",omitempty"`
 	Detail string `json:",omitempty"`
@@ -52,6 +53,7 @@ func Gen(rt *rapid.T, run *ev.Run, nInputs int, nullableHeavy bool) *Case {
 		}
 		seen := map[string]bool{}
 		c := &Case{G: g, Named: rapid.Bool().Draw(rt, "named-slice-params"), Layout: rapid.IntRange(0, 2).Draw(rt, "onbounds-layout")}
+		c.PtrDis = rapid.Bool().Draw(rt, "ptr-discard")
 		if rapid.IntRange(0, 2).Draw(rt, "nil-results") == 0 {
 			// some rules (the start rule more often than not) are side-effect-only: `any`, nil
 			c.Nil = rapid.Uint64().Draw(rt, "nilmask") | uint64(rapid.IntRange(0, 1).Draw(rt, "nilstart"))
@@ -115,7 +117,7 @@ func Eval(run *ev.Run, cases []*Case, m Mode, count bool, prop string) ([]Verdic
 	mk := func(onb bool) ([]*pbatch.Case, []*pbatch.Out, error) {
 		pc := make([]*pbatch.Case, len(cases))
 		for i, c := range cases {
-			pc[i] = &pbatch.Case{G: c.G, Inputs: c.Inputs, OnBounds: onb, NamedSlices: c.Named, BoundsLayout: c.Layout, NilMask: c.Nil}
+			pc[i] = &pbatch.Case{G: c.G, Inputs: c.Inputs, OnBounds: onb, NamedSlices: c.Named, BoundsLayout: c.Layout, NilMask: c.Nil, PtrDiscard: c.PtrDis}
 		}
 		outs, err := pbatch.Run(pc, true)
 		return pc, outs, err
@@ -273,10 +275,10 @@ func Shrink(run *ev.Run, c *Case, m Mode, prop string) *Case {
 	cands := func(c *Case) []*Case {
 		var out []*Case
 		for _, g := range cfggen.Reductions(c.G) {
-			out = append(out, &Case{G: g, Named: c.Named, Layout: c.Layout, Nil: c.Nil, Inputs: c.Inputs})
+			out = append(out, &Case{G: g, Named: c.Named, Layout: c.Layout, Nil: c.Nil, PtrDis: c.PtrDis, Inputs: c.Inputs})
 		}
 		for _, w := range cfggen.InputReductions(c.Inputs[0]) {
-			out = append(out, &Case{G: c.G, Named: c.Named, Layout: c.Layout, Nil: c.Nil, Inputs: [][]int{w}})
+			out = append(out, &Case{G: c.G, Named: c.Named, Layout: c.Layout, Nil: c.Nil, PtrDis: c.PtrDis, Inputs: [][]int{w}})
 		}
 		return out
 	}
@@ -384,7 +386,7 @@ func RunCheck(run *ev.Run, prop string, m Mode, nQuick, nThorough int, nullableH
 			if vs[i].Bad == nil {
 				continue
 			}
-			fc := &Case{G: c.G, Named: c.Named, Layout: c.Layout, Nil: c.Nil, Inputs: [][]int{vs[i].Bad}, Lox: c.Lox}
+			fc := &Case{G: c.G, Named: c.Named, Layout: c.Layout, Nil: c.Nil, PtrDis: c.PtrDis, Inputs: [][]int{vs[i].Bad}, Lox: c.Lox}
 			detail := vs[i].Detail
 			if len(vs[i].Bad) > 0 || true {
 				fc = Shrink(run, fc, m, prop)
